@@ -1,0 +1,63 @@
+//go:build verif
+// +build verif
+
+package sm2
+
+import "math/big"
+
+// Test-only exports for the external verification harness (build tag "verif").
+// Thin wrappers around unexported field arithmetic; no behaviour of the package changes.
+
+// VerifFE is the 9-limb Montgomery-form field element.
+type VerifFE = [9]uint32
+
+func VerifFromBig(a *big.Int) VerifFE {
+	P256Sm2()
+	var x sm2P256FieldElement
+	sm2P256FromBig(&x, a)
+	return VerifFE(x)
+}
+
+func VerifToBig(x VerifFE) *big.Int {
+	P256Sm2()
+	fe := sm2P256FieldElement(x)
+	return sm2P256ToBig(&fe)
+}
+
+func VerifMul(a, b VerifFE) VerifFE {
+	P256Sm2()
+	var c sm2P256FieldElement
+	fa, fb := sm2P256FieldElement(a), sm2P256FieldElement(b)
+	sm2P256Mul(&c, &fa, &fb)
+	return VerifFE(c)
+}
+
+func VerifSquare(a VerifFE) VerifFE {
+	P256Sm2()
+	var c sm2P256FieldElement
+	fa := sm2P256FieldElement(a)
+	sm2P256Square(&c, &fa)
+	return VerifFE(c)
+}
+
+func VerifAdd(a, b VerifFE) VerifFE {
+	P256Sm2()
+	var c sm2P256FieldElement
+	fa, fb := sm2P256FieldElement(a), sm2P256FieldElement(b)
+	sm2P256Add(&c, &fa, &fb)
+	return VerifFE(c)
+}
+
+func VerifSub(a, b VerifFE) VerifFE {
+	P256Sm2()
+	var c sm2P256FieldElement
+	fa, fb := sm2P256FieldElement(a), sm2P256FieldElement(b)
+	sm2P256Sub(&c, &fa, &fb)
+	return VerifFE(c)
+}
+
+// VerifWNAF returns the width-4 wNAF digits (least significant first) ScalarMult uses for k.
+func VerifWNAF(k []byte) []int8 {
+	P256Sm2()
+	return sm2GenrateWNaf(k)
+}
